@@ -392,6 +392,9 @@ def _replace_returns(stmts: list, target, loc) -> list:
                 hd.body = _replace_returns(hd.body, target, loc)
         elif isinstance(st, ast.With):
             st.body = _replace_returns(st.body, target, loc)
+        elif isinstance(st, ast.Match):
+            for cs in st.cases:
+                cs.body = _replace_returns(cs.body, target, loc)
         out.append(st)
     return out
 
@@ -694,3 +697,87 @@ def propagate_new_constants(model, module_names: dict) -> list:
                 continue
             rewrite(mod, st)
     return sorted(f"{m}.{n}" for m, n in used)
+
+
+# --------------------------------------------------------------------------- match statements
+class _DesugarMatch(ast.NodeTransformer):
+    """`match` -> if / elif chain (the pinned tree has no `match`; the rules and the CFG builder speak
+    if/elif).  Value, singleton, class-without-arguments, or-patterns, the wildcard and simple captures are
+    translated exactly; any other pattern becomes an opaque test `__match__("<pattern>", subject)` that
+    every oracle treats as unknown."""
+
+    def __init__(self):
+        self.n = 0
+        self.changed = False
+
+    def _cond(self, pat, subj, binds):
+        if isinstance(pat, ast.MatchValue):
+            return ast.Compare(left=copy.deepcopy(subj), ops=[ast.Eq()], comparators=[pat.value])
+        if isinstance(pat, ast.MatchSingleton):
+            return ast.Compare(left=copy.deepcopy(subj), ops=[ast.Is()], comparators=[ast.Constant(value=pat.value)])
+        if isinstance(pat, ast.MatchClass) and not pat.patterns and not pat.kwd_patterns:
+            return ast.Call(func=ast.Name(id="isinstance", ctx=ast.Load()), args=[copy.deepcopy(subj), pat.cls], keywords=[])
+        if isinstance(pat, ast.MatchOr):
+            parts = [self._cond(p_, subj, binds) for p_ in pat.patterns]
+            return ast.BoolOp(op=ast.Or(), values=parts)
+        if isinstance(pat, ast.MatchAs):
+            if pat.pattern is None:
+                if pat.name is not None:
+                    binds.append(pat.name)
+                return ast.Constant(value=True)
+            c = self._cond(pat.pattern, subj, binds)
+            if pat.name is not None:
+                binds.append(pat.name)
+            return c
+        return ast.Call(func=ast.Name(id="__match__", ctx=ast.Load()), args=[ast.Constant(value=ast.unparse(pat)), copy.deepcopy(subj)], keywords=[])
+
+    def visit_Match(self, node):
+        self.generic_visit(node)
+        self.changed = True
+        pre = []
+        subj = node.subject
+        if not _simple(subj):
+            self.n += 1
+            tmp = f"__match_subject{self.n}"
+            pre.append(ast.copy_location(ast.Assign(targets=[ast.Name(id=tmp, ctx=ast.Store())], value=subj, lineno=node.lineno), node))
+            subj = ast.Name(id=tmp, ctx=ast.Load())
+        chain = None
+        last = None
+        for case in node.cases:
+            binds = []
+            cond = self._cond(case.pattern, subj, binds)
+            if case.guard is not None:
+                cond = ast.BoolOp(op=ast.And(), values=[cond, case.guard])
+            body = [ast.copy_location(ast.Assign(targets=[ast.Name(id=b, ctx=ast.Store())], value=copy.deepcopy(subj), lineno=case.body[0].lineno), case.body[0]) for b in binds] + list(case.body)
+            always = isinstance(cond, ast.Constant) and cond.value is True
+            if always and last is not None:
+                last.orelse = body
+                break
+            if always:
+                chain = body  # a lone wildcard
+                last = None
+                break
+            new_if = ast.copy_location(ast.If(test=ast.copy_location(cond, case.pattern), body=body, orelse=[]), case.pattern)
+            if last is None:
+                chain = [new_if]
+            else:
+                last.orelse = [new_if]
+            last = new_if
+        out = pre + (chain or [ast.copy_location(ast.Pass(), node)])
+        for st in out:
+            ast.fix_missing_locations(st)
+        return out
+
+
+def desugar_match(model) -> bool:
+    changed = False
+    for mod in model.modules.values():
+        if mod.short.startswith("_typeguard"):
+            continue
+        if not any(isinstance(x, ast.Match) for x in ast.walk(mod.tree)):
+            continue
+        tr = _DesugarMatch()
+        tr.visit(mod.tree)
+        ast.fix_missing_locations(mod.tree)
+        changed = changed or tr.changed
+    return changed
